@@ -41,7 +41,7 @@ CLAIMS: dict[str, dict] = {
     "C05": dict(
         technique="least fixpoint of reachable joint writer/reader lookup states (finite abstract domain up to key renaming) computed through the source of the index rules; ordering enumeration",
         text="For table sizes 1..5 (quick) / 1..6 (thorough) and each of the three index rules the closed set of reachable (LookupEncoder, LookupDecoder) states is enumerated through the real source; at every transition the emitted entry id + reference resolves on the reader to the writer's key, ids lie in [0,size], the writer holds <= size entries. "
-        "The same closure is computed one level up (TermEncoder.encode_iri/encode_literal rows fed to Decoder, tables of size 1..3, key alphabet size+2). Closure of a finite state space covers histories of any length. Not decided: sizes above the bound (argued by the comparison-only fragment).",
+        "The same closure is computed one level up (TermEncoder.encode_iri/encode_literal rows fed to Decoder, tables of size 1..3, key alphabet size+2). Closure of a finite state space covers histories of any length. A hit refreshes the entry when driven through TermEncoder.encode_iri/encode_literal for all three tables, and on every path on which the library itself pairs encoder and options the size announced in the options row is the size of the writer's table. Not decided: sizes above the bound (argued by the comparison-only fragment).",
         design_ref="DESIGN.md §5 C05, §11.2",
     ),
     "C06": dict(
@@ -59,13 +59,13 @@ CLAIMS: dict[str, dict] = {
     "C08": dict(
         technique="constant propagation of the detector over a finite header domain; ground truth derived from the protobuf descriptor; position-tracking I/O rule; varint table for hand-made prefixes",
         text="Finite and decided completely: delimited_jelly_hint agrees with the descriptor-derived ground truth on every 3-byte header a valid stream can start with (frame and options-row lengths incl. all 0x0A coincidences, multi-byte varints); get_options_and_frames leaves the read position unchanged and routes to length-prefixed vs whole-input parsing, incl. empty frames; "
-        "write_delimited writes varint(len)+frame at every varint boundary; the rdflib plugin's write mode follows params.delimited; the mode reported for a stream never depends on streams parsed before.",
+        "write_delimited writes varint(len)+frame at every varint boundary; the rdflib plugin's write mode follows params.delimited; the mode reported for a stream never depends on streams parsed before; every public parser classifies a payload handed over after an application header by the bytes at that position.",
         design_ref="DESIGN.md §5 C08, §11.2",
     ),
     "C09": dict(
         technique="I/O-contract taint rule on the resolved receiver class of every read-like call on the parser input (abstract interpretation with an io model); short-read differential",
         text="The read schedule is the environment's; decided is pyjelly's use of the I/O API for four source classes (BytesIO, seekable/non-seekable caller-supplied BufferedReader over a short-read raw source, raw non-seekable) x framings x six public parsers: header bytes for the detector come from an exact-or-EOF read, no raw read after wrapping, frames come from exact reads on a buffered object; "
-        "with 1-2 bytes delivered to the first short-able read, or a source handed over at a non-zero position, the same frames are parsed. One known finding (peek(3) on a wrapped raw source). Not decided: third-party file objects, gzip internals.",
+        "with 1-2 bytes delivered to the first short-able read, more bytes than requested handed to the probe on 0x0A-coincidence headers, or a source handed over at a non-zero position, the same frames are parsed in the same mode; a wrapper that has read from an unbuffered source is never dropped while the source is read again. One known finding (peek(3) on a wrapped raw source). Not decided: third-party file objects, gzip internals.",
         design_ref="DESIGN.md §5 C09, §11.2",
     ),
     "C10": dict(
@@ -82,18 +82,18 @@ CLAIMS: dict[str, dict] = {
     "C12": dict(
         technique="whole-package ownership and effect analysis: shared-heap tagging on traces, syntactic sweep of all functions, instance-state disjointness, default-value table, nondeterminism taint, interleaving differential with an independent content oracle, class-definition hooks",
         text="No import-time object is mutated on any serialise/parse trace nor by any function syntactically; two instances of each stateful construction share no mutable object; all parameter/field defaults are immutable or factories; no hash/id/random/time/set-iteration/non-deterministic SerializeToString on the paths; the metadata map is never written; "
-        "two parsers stepped alternately and two serializers driven under every interleaving of their statements (thorough: all 20 schedules; also one statement encoded in the middle of another) produce what each produces alone and decode to their own inputs (memoisation modelled with the program's own ==); a user subclass never rewires import-time tables. Not decided: rdflib's iteration order, protobuf internals, C-level parallelism.",
+        "two parsers stepped alternately and two serializers driven under every interleaving of their statements (thorough: all 20 schedules; also one statement encoded in the middle of another) produce what each produces alone and decode to their own inputs (memoisation modelled with the program's own ==); a user subclass never rewires import-time tables; the first frame of a stream created after a stream differing in exactly one header field (11 fields, both orders) is what it writes in a fresh process. Not decided: rdflib's iteration order, protobuf internals, C-level parallelism.",
         design_ref="DESIGN.md §5 C12, §11.2",
     ),
     "C13": dict(
         technique="constant propagation over finite enums: decision tables extracted from source vs specification tables",
-        text="Finite and decided completely: header field bijection writer->row->reader for all 9 descriptor fields (explicit and inferred flows), version rule, all 4x8 physical/logical pairs on construction and parse, size limits on both sides, strict-gate tables for both integrations x flat/grouped x 8 logical types, and non-interference of the logical type when strict is off.",
+        text="Finite and decided completely: header field bijection writer->row->reader for all 9 descriptor fields (explicit and inferred flows), announced table sizes == the encoder's table sizes on every library-chosen pairing of encoder and options, version rule, all 4x8 physical/logical pairs on construction and parse, size limits on both sides, strict-gate tables for both integrations x flat/grouped x 8 logical types, and non-interference of the logical type when strict is off.",
         design_ref="DESIGN.md §5 C13, §11.2",
     ),
     "C14": dict(
         technique="symbolic pipeline for namespace bindings (source -> rows -> reference decoder / real reader -> sink -> re-serialise), guard and order rules",
         text="For both integrations x physical types x sink/grouped/generator input x frame sizes x presets incl. no prefix table: bound (prefix, IRI) pairs reach the wire, the reader's Prefix events and the sink unchanged and in order (no reordering construct on the path), the adapter constructor is applied once, re-serialisation is a fixpoint, no rows when the option is off, statements unaffected; "
-        "a target that already binds the namespace ends up with the declared prefix; a reused reader sink reports the file's bindings. Not decided: rdflib's default bindings, eviction interplay on concrete data.",
+        "a target that already binds the namespace ends up with the declared prefix; a reused reader sink reports the file's bindings; declarations falling between two uses of one IRI (second sink of a grouped stream) change nothing. Not decided: rdflib's default bindings, eviction interplay on concrete data.",
         design_ref="DESIGN.md §5 C14, §11.2",
     ),
     "C15": dict(
@@ -110,7 +110,7 @@ CLAIMS: dict[str, dict] = {
     ),
     "C17": dict(
         technique="taint + dominance of input-sized allocations on parser traces; recursion-shape rule via message parent pointers; must-progress analysis of while loops; regular-expression blow-up detection over re._parser trees",
-        text="Wall time, RSS and interpreter crashes are runtime quantities and are not decided. Decided: no allocation sized by an options-row field or an entry id above 4096 happens before rejection; the only recursion on the parse path descends into strict sub-messages; every while loop on the parse path steps a counter of its condition or consumes input on every path back, the frame iterator stops at EOF, "
+        text="Wall time, RSS and interpreter crashes are runtime quantities and are not decided. Decided: no allocation sized by an options-row field or an entry id above 4096 happens before rejection; the only recursion on the parse path descends into strict sub-messages; every while loop on the parse path steps a counter of its condition or consumes input on every path back, (peek/tell do not count as consuming), the frame iterator stops at EOF, "
         "no lazy iterator is nested once per input frame, and no regular expression with nested/overlapping quantifiers is applied to input text.",
         design_ref="DESIGN.md §5 C17, §11.2",
     ),
@@ -122,13 +122,13 @@ CLAIMS: dict[str, dict] = {
     ),
     "C19": dict(
         technique="row-level audit of abstract emitted streams by the reference decoder: redundant-entry, missed-elision, missed-zero counters, graph-start count",
-        text="Over ~2900 writer configurations of both integrations (incl. namespace declarations and graph names reused as terms with and without a prefix table): no entry row for a resident string, no term written that equals the previous statement's term in its slot, zero forms wherever the delta rule allows, one graph start per run of equal graph names. Not decided: sizes of concrete outputs; batch sizes above the analysed sequences.",
+        text="Over ~2900 writer configurations of both integrations (incl. namespace declarations and graph names reused as terms with and without a prefix table): no entry row for a resident string, no term written that equals the previous statement's term in its slot, zero forms wherever the delta rule allows, one graph start per run of equal graph names (generic writer; rdflib writer on inputs whose graph names form single runs). Integer thresholds written in the source (batch sizes, default frame size) are treated as parameters and scaled below the sequence length (jstat/tunables.py). Two known findings (F13 via C02/C03/C15; F14: plain vs xsd:string written again). Not decided: sizes of concrete outputs.",
         design_ref="DESIGN.md §5 C19, §11.2",
     ),
     "C20": dict(
         technique="exception-safety (effect) analysis on abstract traces: catch-and-continue driver, fault at every slot x cause, result judged by the reference decoder",
         text="For 3 stream methods x both encoders x causes {unsupported term, typed literal with disabled table, short tuple, interrupted term iterator, failure after already-known terms} x slots {s,p,o,g,nested} x frame sizes: after the rejected statement the frames written are valid and decode to exactly the accepted statements, or the stream refuses further use; "
-        "the same through the integrations' stream_frames driver used again on the stream. Not decided: every position in arbitrary concrete sequences.",
+        "the same through the integrations' stream_frames driver used again on the stream, and with GraphStream graph generators obtained before the failure and consumed after it. Not decided: every position in arbitrary concrete sequences.",
         design_ref="DESIGN.md §5 C20, §11.2",
     ),
 }
